@@ -627,7 +627,7 @@ Section Proofs.
     py_mod (r_pos (s_rd s)) 8 = 0 ->
     (forall s', ext s s' -> after_seq_hdr s' -> Q tt s') -> wp fuel (sequence_header T lvl fuel) Q s.
   Proof.
-    intros HA HQ. unfold sequence_header.
+    intros HA HQ. unfold sequence_header, m_set_coding_parameters.
     wp_step. wp_step. wp_step. rewrite HA. change (0 =? 0) with true. cbv iota. wp_step.
     wp_step. wp_step.
     wp_step. apply wp_parse_parameters. intros s1 E1 I1.
@@ -635,7 +635,7 @@ Section Proofs.
     apply wp_source_parameters; [assumption | unfold IA in *; solve_present |]. intros s2 E2 I2.
     wp_steps.
     apply wp_picture_dimensions; [solve_present|]. intros s3 E3 (D1 & D2 & D3 & D4).
-    wp_step. apply wp_video_depth. intros s4 E4.
+    apply wp_video_depth. intros s4 E4.
     wp_steps.
     repeat (apply wp_checked_mod; [apply Z.eqb_neq; assumption|]; wp_steps).
     apply wp_finish_recording. intros b. apply HQ; [solve_ext|].
